@@ -89,20 +89,32 @@ def dashu_r2f(n, d):
         return sign * math.inf
 
 
+def zc(n):
+    """Coq text of an integer; long literals are slow to parse in Coq, so big values are limb lists for Model.zl"""
+    if abs(n) < (1 << 62):
+        return "(%d)" % n
+    m, limbs = abs(n), []
+    while m:
+        limbs.append(str(m & ((1 << 60) - 1)))
+        m >>= 60
+    t = "(zl [%s])" % ";".join(limbs)
+    return "(- %s)" % t if n < 0 else t
+
+
 # ------------------------------------------------------------------ numbers
 # a number: dict(kind in Fix/Big/Rat/Flt, val (int|Fraction|float bits), pl (operand text), coq)
 def mk_int(z, fb, computed=False):
     inr = fb[0] <= z <= fb[1]
     lit = "(%d)" % z if z < 0 else str(z)
     if computed and inr:
-        return {"kind": "Big", "val": z, "pl": "(%s+2^70-2^70)" % lit, "coq": "(Big (%d))" % z}
-    return {"kind": "Fix" if inr else "Big", "val": z, "pl": lit, "coq": "(%s (%d))" % ("Fix" if inr else "Big", z)}
+        return {"kind": "Big", "val": z, "pl": "(%s+2^70-2^70)" % lit, "coq": "(Big %s)" % zc(z)}
+    return {"kind": "Fix" if inr else "Big", "val": z, "pl": lit, "coq": "(%s %s)" % ("Fix" if inr else "Big", zc(z))}
 
 
 def mk_rat(k, d):
     q = Fraction(k, d)
     kl = "(%d)" % k if k < 0 else str(k)
-    return {"kind": "Rat", "val": q, "pl": "(%s rdiv %d)" % (kl, d), "coq": "(Rat (%d) (%d))" % (q.numerator, q.denominator)}
+    return {"kind": "Rat", "val": q, "pl": "(%s rdiv %d)" % (kl, d), "coq": "(Rat %s %s)" % (zc(q.numerator), zc(q.denominator))}
 
 
 def mk_flt(x):
@@ -173,12 +185,12 @@ def gen_pairs(ctx, fb):
             rats.append(mk_rat(num << e, d))
         else:
             q = Fraction(num, d << -e)
-            rats.append({"kind": "Rat", "val": q, "pl": "(%d rdiv (%d*2^%d))" % (num, d, -e), "coq": "(Rat (%d) (%d))" % (q.numerator, q.denominator)})
+            rats.append({"kind": "Rat", "val": q, "pl": "(%d rdiv (%d*2^%d))" % (num, d, -e), "coq": "(Rat %s %s)" % (zc(q.numerator), zc(q.denominator))})
     for k in (1, -1, 2, 5, 1 << 53):
         for e in (1074, 1075, 1076, 1022, 1023, 1080):
             q = Fraction(k, 1 << e)
             rats.append({"kind": "Rat", "val": q, "pl": "(%d rdiv 2^%d)" % (k, e) if k > 0 else "((%d) rdiv 2^%d)" % (k, e),
-                         "coq": "(Rat (%d) (%d))" % (q.numerator, q.denominator)})
+                         "coq": "(Rat %s %s)" % (zc(q.numerator), zc(q.denominator))})
     exact += rats
     floats = [mk_flt(x) for x in SPECIAL_FLOATS]
     pairs = []
